@@ -18,6 +18,10 @@ pub enum StdinKind {
     Pipe,
     /// /dev/null (only when the input is empty)
     DevNull,
+    /// a pipe whose writer is a slow producer: the bytes arrive in the pieces
+    /// given by `ProcSpec::stdin_cuts`, each piece only once the program has
+    /// used up the previous one and waits for more (or a short time passed)
+    Trickle,
 }
 
 #[derive(Clone, Debug)]
@@ -27,6 +31,9 @@ pub struct ProcSpec {
     pub cwd: PathBuf,
     pub stdin: Vec<u8>,
     pub stdin_kind: StdinKind,
+    /// with StdinKind::Trickle: ascending byte offsets at which the writer
+    /// pauses
+    pub stdin_cuts: Vec<usize>,
     /// stdout and stderr share one open file description (append mode), so
     /// the file's byte order is the order of the write syscalls
     pub shared_out_err: bool,
@@ -137,6 +144,19 @@ pub fn strip_sgr(b: &[u8]) -> Vec<u8> {
     out
 }
 
+extern "C" {
+    fn ioctl(fd: i32, request: u64, ...) -> i32;
+}
+
+/// No unread bytes are left in the pipe this is the write end of.
+fn pipe_is_empty(w: &std::process::ChildStdin) -> bool {
+    use std::os::unix::io::AsRawFd;
+    const FIONREAD: u64 = 0x541B;
+    let mut n: i32 = -1;
+    let rc = unsafe { ioctl(w.as_raw_fd(), FIONREAD, &mut n as *mut i32) };
+    rc == 0 && n == 0
+}
+
 pub fn contains(hay: &[u8], needle: &[u8]) -> bool {
     needle.is_empty() || hay.windows(needle.len()).any(|w| w == needle)
 }
@@ -187,7 +207,7 @@ pub fn run(spec: &ProcSpec, scratch: &Scratch, tag: &str) -> Result<ProcResult, 
                 .map_err(|e| e.to_string())?;
             cmd.stdin(Stdio::from(File::open(p).map_err(|e| e.to_string())?));
         }
-        StdinKind::Pipe => {
+        StdinKind::Pipe | StdinKind::Trickle => {
             cmd.stdin(Stdio::piped());
         }
         StdinKind::DevNull => {
@@ -205,6 +225,45 @@ pub fn run(spec: &ProcSpec, scratch: &Scratch, tag: &str) -> Result<ProcResult, 
         Some(std::thread::spawn(move || {
             // the child may exit without reading everything: EPIPE is fine
             let _ = stdin.write_all(&data);
+            drop(stdin);
+        }))
+    } else if spec.stdin_kind == StdinKind::Trickle {
+        let mut stdin = child.stdin.take().unwrap();
+        let data = spec.stdin.clone();
+        let cuts = spec.stdin_cuts.clone();
+        let pid = child.id();
+        Some(std::thread::spawn(move || {
+            let mut from = 0usize;
+            let mut patience_ms: u128 = 100;
+            for cut in cuts.into_iter().chain(std::iter::once(data.len())) {
+                let cut = cut.min(data.len());
+                if cut <= from {
+                    continue;
+                }
+                if stdin.write_all(&data[from..cut]).is_err() {
+                    return;
+                }
+                from = cut;
+                if from == data.len() {
+                    break;
+                }
+                // the next piece follows once the program has taken this one
+                // out of the pipe (so the two arrive in different reads) -- or
+                // after 100 ms: it may be busy, finished, or not reading
+                let started = std::time::Instant::now();
+                let mut taken = false;
+                while started.elapsed().as_millis() < patience_ms {
+                    if pipe_is_empty(&stdin) || !std::path::Path::new(&format!("/proc/{}", pid)).exists() {
+                        taken = true;
+                        break;
+                    }
+                    std::thread::sleep(std::time::Duration::from_micros(300));
+                }
+                if !taken {
+                    // evidently not a reader: the remaining pauses are short
+                    patience_ms = 5;
+                }
+            }
             drop(stdin);
         }))
     } else {
